@@ -1010,7 +1010,7 @@ def serialize_val(
         isinstance(val, (int, float, str, bool)) or val is None
     ):
         return val
-    if isinstance(field_definition, SizedCollection):
+    if isinstance(field_definition, (SizedCollection, Tuple)):
         if isinstance(field_definition, Map):
             if (
                 isinstance(field_definition.items, list)
@@ -1036,6 +1036,8 @@ def serialize_val(
                 }
 
         items = getattr(field_definition, "items", None)
+        if isinstance(field_definition, Tuple) and len(items) == 1:
+            items = items[0]
         if isinstance(items, list):
             return [
                 serialize_val(
